@@ -520,7 +520,7 @@ def work(job):
                     continue
                 journal(f"pass {pname} on {f}#{i}")
                 try:
-                    signal.alarm(10)
+                    signal.alarm(60)
                     p.apply(ctx, m)
                     m.verify()
                     signal.alarm(0)
